@@ -14,7 +14,7 @@ import (
 
 var ghostBuiltins = map[string]bool{
 	"requires": true, "ensures": true, "ensuresGoal": true, "assert": true, "assume": true, "imp": true, "iff": true, "old": true,
-	"forall": true, "exists": true, "forallIn": true, "existsIn": true, "modifiesTail": true, "modifiesElems": true, "modifiesPtr": true, "modifiesAll": true, "modifiesMap": true,
+	"forall": true, "exists": true, "forallIn": true, "existsIn": true, "forallStr": true, "modifiesTail": true, "modifiesElems": true, "modifiesPtr": true, "modifiesAll": true, "modifiesMap": true,
 	"freshSlice": true, "sameBase": true, "sameArray": true, "suffixOf": true, "viewOf": true, "offsetIn": true, "disjointFromTail": true, "bytesEq": true, "strBytesEq": true, "allocated": true, "unchangedElems": true,
 	"covers": true,
 }
@@ -279,6 +279,9 @@ func (c *VC) evalArgs(st *State, fn *types.Func, call *ast.CallExpr) ([]*Term, b
 
 func (c *VC) convert(st *State, arg ast.Expr, to types.Type, call *ast.CallExpr) *Term {
 	from := c.typeOf(arg)
+	if b, ok := from.Underlying().(*types.Basic); ok && b.Kind() == types.UntypedNil {
+		return c.zero(to)
+	}
 	v := c.eval(st, arg)
 	it := types.Typ[types.Int]
 	fu, tu := from.Underlying(), to.Underlying()
@@ -641,7 +644,7 @@ func (c *VC) havocCall(st *State, fn *types.Func, args []*Term, call *ast.CallEx
 		c.assumptions["call to "+name+" is pure (result depends only on its arguments and the memory they directly reference)"] = true
 		// functional: UF over args plus first-level memory
 		sig := fn.Type().(*types.Signature)
-		uargs := append([]*Term{}, args...)
+		var uargs []*Term
 		var ptypes []types.Type
 		if sig.Recv() != nil {
 			ptypes = append(ptypes, sig.Recv().Type())
@@ -651,16 +654,21 @@ func (c *VC) havocCall(st *State, fn *types.Func, args []*Term, call *ast.CallEx
 		}
 		for i, a := range args {
 			if i >= len(ptypes) {
-				break
+				uargs = append(uargs, a)
+				continue
 			}
 			switch u := ptypes[i].Underlying().(type) {
 			case *types.Slice:
+				// a slice argument is its content: (row, offset, length); identity and capacity do not matter
 				_, h := c.sliceHeap(st, c.sortOf(u.Elem()))
-				uargs = append(uargs, c.sel(h, mkField(a, "sl_base")))
+				uargs = append(uargs, c.sel(h, mkField(a, "sl_base")), mkField(a, "sl_off"), mkField(a, "sl_len"))
 			case *types.Pointer:
+				uargs = append(uargs, a)
 				if c.sizeof(u.Elem()) <= 64 {
 					uargs = append(uargs, c.loadAt(st, a, u.Elem()))
 				}
+			default:
+				uargs = append(uargs, a)
 			}
 		}
 		for i, rt := range rts {
